@@ -173,8 +173,16 @@ func (c *netFD) connect(ctx context.Context, la, ra syscall.Sockaddr) (rsa sysca
 var (
 	errMissingAddress = errors.New("missing address")
 	errCanceled       = errors.New("operation was canceled")
-	errIOTimeout      = errors.New("i/o timeout")
 )
+
+// errIOTimeout is the dial deadline error; like the standard library's, it reports Timeout().
+var errIOTimeout error = &timeoutError{}
+
+type timeoutError struct{}
+
+func (e *timeoutError) Error() string   { return "i/o timeout" }
+func (e *timeoutError) Timeout() bool   { return true }
+func (e *timeoutError) Temporary() bool { return true }
 
 // mapErr maps from the context errors to the historical internal net
 // error values.
